@@ -127,7 +127,7 @@ def run(v, tier):
     rng = random.Random(pi2v.SEED)
     v.assumptions += ['pyk.kore.syntax / pyk.kllvm are provided by harness/py/pykshim.py (the real package is not installed): dataclasses with the positional fields the repository matches on',
                       'definitions are built through LanguageSemantics.from_kore_definition; substitutions are ground']
-    reqs = [gen_case(rng, rng.randrange(1, 6), i % (4 if quick else 3) == 0) for i in range(150 if quick else 600)]
+    reqs = [gen_case(rng, rng.randrange(1, 6), i % (4 if quick else 3) == 0) for i in range(150 if quick else 2500)]
     e = {'PYTHONPATH': None}
     from concurrent.futures import ThreadPoolExecutor
     n = 12
